@@ -52,6 +52,28 @@ func HistoryFamily() []Prog {
 			}})
 		}
 	}
+	// tables that contain runes which cannot be encoded (surrogate halves) next to ordinary ones; each table is used by
+	// two members, so that in some rotation one is built after the other has put the table into the process-wide cache
+	for _, tc := range []struct {
+		name string
+		ts   []*unicode.RangeTable
+	}{{"C", []*unicode.RangeTable{unicode.C}}, {"Cs,Lu", []*unicode.RangeTable{unicode.Cs, unicode.Lu}}, {"Co,Cs,Nd", []*unicode.RangeTable{unicode.Co, unicode.Cs, unicode.Nd}}} {
+		for _, withRunes := range []bool{false, true} {
+			tc, withRunes := tc, withRunes
+			ps = append(ps, Prog{Name: fmt.Sprintf("RuneFrom(runes=%v,%s)x24", withRunes, tc.name), New: func() func(t *rapid.T, r *Rec) {
+				var runes []rune
+				if withRunes {
+					runes = []rune{'q'}
+				}
+				g := rapid.RuneFrom(runes, tc.ts...)
+				return func(t *rapid.T, r *Rec) {
+					for i := 0; i < 24; i++ {
+						r.Draws = append(r.Draws, Render(g.Draw(t, "r")))
+					}
+				}
+			}})
+		}
+	}
 	// the same class spelled differently, classes that differ only by a flag (and print identically once
 	// simplified: \d and (?i)\d are both [0-9]), nested classes - every expression under every flag
 	for _, expr := range []string{`[a-c]`, `[abc]`, `[^a-c]`, `[a-c]+`, `.`, `\d`, `[0-9]`, `\D`, `\w\W`, `[[:alpha:]]`, `[[:^alpha:]]`, `[0-9a-fA-F]{3}`, `[0-9a-f]{3}`, `[A-Za-z]`, `[a-z]`,
